@@ -165,7 +165,30 @@ func (g *crashGen) reopen(img dirImage, scratch string, opt Options) (lit string
 		g.failOpen++
 		return "None", nil
 	}
+	// every segment file left in the directory belongs to the reopened log: a stray file would be adopted, with its old
+	// entries, by a later roll-over that reaches its index
+	chain := map[uint64]bool{}
+	for sg := l.first; sg != nil; sg = sg.next {
+		chain[sg.prevIndex] = true
+	}
+	if files, _ := filepath.Glob(filepath.Join(scratch, "*.log")); len(g.findings) < 8 {
+		for _, f := range files {
+			if k := keyOf(filepath.Base(f)); !chain[k] {
+				g.findings = append(g.findings, fmt.Sprintf("C14|stray-segment-file|after reopening a crash image the directory still holds %s, which is not part of the log (segments start after %v): a later roll-over at index %d would adopt its old entries", filepath.Base(f), sortedKeys(chain), k))
+				break
+			}
+		}
+	}
 	return "(Some " + dumpLog(l) + ")", l
+}
+
+func sortedKeys(m map[uint64]bool) []uint64 {
+	var ks []uint64
+	for k := range m {
+		ks = append(ks, k)
+	}
+	sort.Slice(ks, func(i, j int) bool { return ks[i] < ks[j] })
+	return ks
 }
 
 func pageMix(dur, cur []byte, pick func(page int) bool) []byte {
@@ -196,6 +219,8 @@ var crashScripts = []struct {
 	{9000, []string{"a", "a", "c", "a", "a", "a", "g5", "g4", "a", "a", "g4", "c"}},
 	{5000, []string{"a", "a", "a", "c", "a", "a", "a", "a", "g7", "c", "a", "g5"}},
 	{9000, []string{"a", "a", "a", "a", "c", "l2", "a", "a", "a", "g6", "a", "c", "g3"}},
+	// one entry per segment: back-removals that span several segment files
+	{1024, []string{"a", "a", "a", "a", "a", "c", "g2", "a", "a", "c", "a", "a", "a", "g3", "a", "c"}},
 }
 
 func (g *crashGen) sequence(base string, nops int, script []string, scriptSeg int) {
